@@ -67,6 +67,7 @@ const (
 	BodyMustBeObject                                    = "there must be an object or a reference to an object in the directive body"                                                                                                              //nolint:lll
 	CannotUseTheTypeAndSchemaNotationParametersTogether = "directive parameters `Type` and `SchemaNotation` cannot be declared simultaneously"                                                                                                     //nolint:lll
 	ThereIsNoExplicitContextForClosure                  = "nothing to close with this closing parenthesis, learn more about the explicit direcitve boundaries here: https://jsight.io/docs/jsight-api-0-3#boundaries-of-the-body-of-the-directive" //nolint:lll
+	ThereIsNoDirectiveForExplicitContext                = "nothing to open with this opening parenthesis, learn more about the explicit direcitve boundaries here: https://jsight.io/docs/jsight-api-0-3#boundaries-of-the-body-of-the-directive"  //nolint:lll
 	DirectiveNotAllowed                                 = "the directive is not allowed"
 	ApartFromTheOpeningParenthesis                      = "apart from the opening parenthesis, there should be nothing else on this line, learn more about the explicit direcitve boundaries here: https://jsight.io/docs/jsight-api-0-3#boundaries-of-the-body-of-the-directive" //nolint:lll
 	DuplicateNames                                      = "the name %q has already been declared before"
